@@ -395,7 +395,7 @@ Lemma lgood_gen_all f : file_named nm tx f -> lgood (gen_all f).
 Proof.
   intros Hn. unfold gen_all. lg.
   - apply lgood_seqs_map. intros e _. apply lgood_go_block.
-  - intros g Hg. unfold LI. cbn [add_map w]. apply lgood_wr. exact Hg.
+  - intros g Hg. unfold wpk. destruct (zero_range (f_pkg f)); [apply lgood_wr; exact Hg|]. unfold LI. cbn [add_map w]. apply lgood_wr. exact Hg.
   - apply lgood_write_fnodes. exact Hn.
 Qed.
 
